@@ -176,7 +176,7 @@ def run(tier, selftest):
     if len(rows) != 7 * 11 * 12 * 4:
         vlib.tool_error(f"decision table has {len(rows)} rows, expected 3696")
     rng = random.Random(vlib.seed() * 31337 + 12)
-    per_row = 6 if thorough else 2
+    per_row = 40 if thorough else 2
     cases, mo = [], []
     for row in rows:
         for co, plo, phi in instantiate(row, rng, per_row):
